@@ -36,6 +36,7 @@ type World struct {
 	typesPkgs   map[string]*types.Package
 	pureLib     map[string]bool
 	specFiles   []string
+	globalGhosts map[string]string // name -> type
 }
 
 func (w *World) pos(p token.Pos) string {
@@ -83,7 +84,7 @@ func pkgPathOfFile(f string) string {
 func loadWorld(prop string, extraPkgs []string) (*World, error) {
 	w := &World{specs: map[string]*FuncSpec{}, extern: map[string]*FuncSpec{}, ifaceSpecs: map[string]*FuncSpec{}, specFuncs: map[string]*SpecFunc{},
 		specFuncPkg: map[string]*types.Package{}, usedLib: map[string]bool{}, refuted: map[string]bool{}, spkgs: map[string]*ssa.Package{},
-		typesPkgs: map[string]*types.Package{}, pureLib: map[string]bool{}}
+		typesPkgs: map[string]*types.Package{}, pureLib: map[string]bool{}, globalGhosts: map[string]string{}}
 	files := findContractFiles()
 	w.specFiles = files
 	parsed := map[string]*SpecFile{}
@@ -205,6 +206,9 @@ func loadWorld(prop string, extraPkgs []string) (*World, error) {
 		}
 		for _, l := range sf.Lemmas {
 			w.lemmas = append(w.lemmas, l)
+		}
+		for _, gg := range sf.Globals {
+			w.globalGhosts[gg.Name] = gg.Type
 		}
 		w.axioms = append(w.axioms, sf.Axioms...)
 	}
